@@ -230,9 +230,11 @@ class Parser:
 
         const_str = self._current_str()
         if len(const_str) > 0:
-            self._add_instruction(OpCode.MOVEQ, const_str, Register.NAME)
+            name_inst = (OpCode.MOVEQ, const_str, Register.NAME)
+            self._add_instruction(*name_inst)
             self.next_token()
         elif self._current_token.is_a(TokenTypes.NAME):
+            name_inst = (OpCode.MOVE, str(self._current_token), Register.NAME)
             if not self._var_operand():
                 return False
         else:
@@ -255,8 +257,13 @@ class Parser:
                 return self.trigger_error(
                     'Rows and columns not supported for {}'.format(
                         self._op_code.name.lower()))
+            is_block = self._current_token.is_a(TokenTypes.BEGIN)
             if not MatrixParser(self).matrix_spec():
                 return False
+            if is_block:
+                # Commands inside the block may have loaded other names. The
+                # result of the block goes to the light named in the "set".
+                self._add_instruction(*name_inst)
             operand = Operand.MATRIX_LIGHT
 
         self._add_instruction(OpCode.MOVEQ, operand, Register.OPERAND)
